@@ -220,7 +220,7 @@ def write_msf(names, rows, kind="P", width=50, group=10, gapchar=".", eol="\n", 
 
 
 def write_clustal(names, rows, width=60, header="CLUSTAL W (1.83) multiple sequence alignment", eol="\n",
-                  cons=True, counts=False, gapchar="-"):
+                  cons=True, counts=False, gapchar="-", group=0):
     n = len(rows[0]) if rows else 0
     rows = [r.replace("-", gapchar) for r in rows]
     pad = max(len(x) for x in names) + 6
@@ -229,7 +229,7 @@ def write_clustal(names, rows, width=60, header="CLUSTAL W (1.83) multiple seque
     for s in range(0, max(n, 1), width):
         for k, (nm, r) in enumerate(zip(names, rows)):
             seg = r[s:s + width]
-            ln = nm.ljust(pad) + seg
+            ln = nm.ljust(pad) + (" ".join(seg[i:i + group] for i in range(0, len(seg), group)) if group else seg)
             if counts:
                 run[k] += sum(1 for c in seg if c.isalpha())
                 ln += " %d" % run[k]
